@@ -173,6 +173,9 @@ func getFloat(context *api.Context, id b6.Identifiable, key string) (float64, er
 	if feature := api.Resolve(id, context.World); feature != nil {
 		return strconv.ParseFloat(feature.Get(key).Value.String(), 64)
 	}
+	if err := requireIdentifiable("get-float", id); err != nil {
+		return 0.0, err
+	}
 	return 0.0, fmt.Errorf("could not find feature with %s id", id.FeatureID().String())
 }
 
